@@ -394,6 +394,9 @@ func c19Run(p c19Plan) *common.Fail {
 	case "cold-start":
 		f, _ := c19ColdStarts(60)
 		return f
+	case "decoding-order":
+		f, _ := c19OrderCheck()
+		return f
 	case "lookup":
 		return c19Lookup(p.Name)
 	case "hammer":
@@ -681,6 +684,16 @@ func TestC19(t *testing.T) {
 		rec.ClassN("cold-start-processes", int64(ran))
 		if f != nil {
 			common.Report(t, rec, f, c19Plan{Mode: "cold-start"})
+		}
+	}
+	// decoding order across types, in two fresh processes (forward and reverse)
+	if rec.Env.Shard == 0 && rec.Env.Job == "dpt" {
+		f, n := c19OrderCheck()
+		rec.Eval(int64(2 * n))
+		rec.NonTrivialEnum(int64(n))
+		rec.ClassN("decoding-order children: type x payload results compared", int64(n))
+		if f != nil {
+			common.Report(t, rec, f, c19Plan{Mode: "decoding-order"})
 		}
 	}
 	types := allTypes()
